@@ -151,8 +151,7 @@ def built(comp: dict, pmax: float) -> pd.DataFrame:
     return _built_cached(json.dumps({"comp": comp, "pmax": pmax}, sort_keys=True))
 
 
-def from_desc(t: dict):
-    """Materialise a table descriptor. Returns a DataFrame (shipped/built) or dict of arrays."""
+def _base(t: dict):
     k = t["kind"]
     if k == "shipped":
         return shipped(t["name"])
@@ -163,9 +162,34 @@ def from_desc(t: dict):
     raise KeyError(k)
 
 
+def from_desc(t: dict):
+    """Materialise a table descriptor. Returns a DataFrame (shipped/built) or dict of arrays.
+
+    "rows": "ascending" (default) | "descending" | "shuffled" - the same table with its rows listed
+    in another order (lab reports list pressures from high to low); the library sorts internally,
+    so nothing may depend on the order of the rows.
+    """
+    tab = _base(t)
+    rows = t.get("rows", "ascending")
+    if rows == "ascending":
+        return tab
+    n = len(tab["pressure"])
+    idx = np.arange(n)[::-1] if rows == "descending" else np.random.default_rng(t.get("rows_seed", 1)).permutation(n)
+    if isinstance(tab, pd.DataFrame):
+        return tab.iloc[idx].reset_index(drop=True)
+    return {k: np.asarray(v)[idx].copy() for k, v in tab.items()}
+
+
+def sorted_columns(tab, *cols):
+    """Columns of a table sorted by pressure (harness-side lookups never rely on the row order)."""
+    p = np.asarray(tab["pressure"], dtype=float)
+    o = np.argsort(p, kind="stable")
+    return [np.asarray(tab[c], dtype=float)[o] for c in cols]
+
+
 def pressure_range(tab):
     p = np.asarray(tab["pressure"], dtype=float)
-    return float(p[0]), float(p[-1])
+    return float(p.min()), float(p.max())
 
 
 def random_table_desc(rng, consistent_only=False, allow_built=True, max_nodes=400):
